@@ -58,7 +58,10 @@ ASSUMPTIONS = [
 ]
 RULE = ("60% DINO / 40% I-JEPA. DINO: a case is a SEQUENCE of 1-4 calls on ONE collator object (an epoch with a smaller "
         "last batch / larger then smaller / smaller then larger / arbitrary batch sizes 1..8, x as tensor or list of views "
-        "per call, 8% of the calls with ctx=None), grid HxW in 2..20 (60% non-square), views 1..3, mask_prob from "
+        "per call -- for half of the cases the list has FEWER or MORE entries than the configured num_views (1, V-1, V+1, "
+        "V+2, V+4, 2V, 10: multi-crop layouts) with global / local views of different spatial sizes; the spec stays "
+        "B*num_views masks and budget floor(B*num_views*p) with the CONFIGURED num_views, which is what the code does "
+        "(no assertion on len(x)) --, 8% of the calls with ctx=None), grid HxW in 2..20 (60% non-square), views 1..3, mask_prob from "
         "{0,.1,.25,.3,.5,.75,.9,1}, ratio pairs from a rational list, min_num_patches 0..9, aspect bounds. I-JEPA: grid 2..20, 1-3 enc and 1-5 pred masks, scales/aspects, min_keep mostly "
         "inside the premise, tries 1..20, 1-4 calls per instance with varying batch sizes (same patterns, some ctx=None) plus "
         "a twin instance with other rngs/batches; grids 65% non-square.  2 (thorough: 60) cases run the collator as collate_fn "
@@ -198,6 +201,15 @@ def gen_batch_sizes(rng):
     return [rng.choice([1, 2, 3, 4, 5, 6, 8]) for _ in range(rng.randint(2, 4))]
 
 
+def gen_views(rng, V):
+    """(number of entries of the list x, their side lengths): fewer / more entries than num_views, views of different sizes"""
+    nx = rng.choice([v for v in (1, V - 1, V + 1, V + 2, V + 4, 2 * V, 10) if v >= 1 and v != V])
+    if rng.random() < 0.2:
+        nx = V
+    g, l = rng.choice([(4, 2), (3, 1), (2, 2), (6, 3)])
+    return nx, [g] * min(V, nx) + [l] * max(nx - V, 0)
+
+
 def gen_dino(rng, big=False):
     hi = 20 if big else 12
     H = rng.choice([2, 3, 4, 5, 7, 8, rng.randint(2, hi), rng.randint(2, hi)])
@@ -223,6 +235,13 @@ def gen_dino(rng, big=False):
     x_list = rng.random() < 0.5
     calls = [{"B": b, "ctx": rng.random() >= 0.08, "x_list": x_list if rng.random() < 0.8 else not x_list,
               "seed": rng.randrange(10 ** 6)} for b in Bs]
+    if rng.random() < 0.5:
+        # x as a list whose length differs from the configured num_views (multi-crop: global + local crops of other
+        # spatial sizes, only num_views of them are masked; or fewer entries than num_views)
+        nx, sizes = gen_views(rng, V)
+        for cl in calls:
+            if cl["x_list"] and rng.random() < 0.85:
+                cl["nx"], cl["sizes"] = nx, sizes
     return {"kind": "dino", "H": H, "W": W, "V": V, "p": p, "ratio": [a, b],
             "minp": rng.choice([0, 1, 2, 4, 4, 4, 6, 9]), "min_aspect": rng.choice([0.3, 0.3, 0.5, 0.1, 1.0]),
             "max_aspect": rng.choice([None, None, 2.0, 3.3]), "calls": calls}
@@ -280,6 +299,8 @@ def gen_loader(rng):
     c["calls"] = []
     c["loader"] = {"n": n, "batch_size": bs, "workers": rng.choice([1, 2, 2, 3]), "seed": rng.randrange(10 ** 6),
                    "x_list": rng.random() < 0.5}
+    if c["kind"] == "dino" and c["loader"]["x_list"] and rng.random() < 0.5:
+        c["loader"]["nx"], c["loader"]["sizes"] = gen_views(rng, c["V"])
     return c
 
 
@@ -329,7 +350,14 @@ def shrink(case):
             if cl["B"] > 1 and _floor_ok((cl["B"] - 1) * c["V"], c["p"]):
                 yield {**c, "calls": calls[:i] + [{**cl, "B": cl["B"] - 1}] + calls[i + 1:]}
             if cl["x_list"]:
-                yield {**c, "calls": calls[:i] + [{**cl, "x_list": False}] + calls[i + 1:]}
+                yield {**c, "calls": calls[:i] + [{k: v for k, v in cl.items() if k not in ("nx", "sizes")} | {"x_list": False}] + calls[i + 1:]}
+            if cl.get("nx") is not None:
+                yield {**c, "calls": calls[:i] + [{k: v for k, v in cl.items() if k not in ("nx", "sizes")}] + calls[i + 1:]}
+                if len(set(cl.get("sizes") or [2])) > 1:
+                    yield {**c, "calls": calls[:i] + [{**cl, "sizes": [2] * cl["nx"]}] + calls[i + 1:]}
+                for nx in (cl["nx"] - 1, c["V"] + 1):
+                    if 1 <= nx < cl["nx"] and nx != c["V"]:
+                        yield {**c, "calls": calls[:i] + [{**cl, "nx": nx, "sizes": (cl.get("sizes") or [2] * cl["nx"])[:nx]}] + calls[i + 1:]}
         if c["V"] > 1 and all(_floor_ok(cl["B"] * (c["V"] - 1), c["p"]) for cl in calls):
             yield {**c, "V": c["V"] - 1, "calls": calls}
         for k in ("H", "W"):
@@ -359,12 +387,16 @@ def shrink(case):
 # ---------------------------------------------------------------------------
 # running the implementation
 # ---------------------------------------------------------------------------
-def _batch(B, x_list, V, tag):
+def _batch(B, x_list, V, tag, nx=None, sizes=None):
+    """B samples; x is a tensor, or (x_list) a list of nx views (default: as many as the collator's num_views; the
+    multi-crop layout has more -- 2 global + N local crops with num_views=2 -- or fewer) of side lengths `sizes`"""
     import torch
     samples = []
+    nx = V if nx is None else nx
+    sizes = sizes or [2] * nx
     for i in range(B):
         if x_list:
-            x = [torch.full((1, 2, 2), float(100 * tag + 10 * i + v)) for v in range(V)]
+            x = [torch.full((1, sizes[v % len(sizes)], sizes[v % len(sizes)]), float(100 * tag + 10 * i + v)) for v in range(nx)]
         else:
             x = torch.full((1, 2, 2), float(100 * tag + 10 * i))
         samples.append(((7 * i + tag, x), {}))
@@ -398,7 +430,7 @@ def run_dino(case):
             trace = []
             ref[0] = trace
             coll.set_rng(SpyRng(cl["seed"], trace, MAX_DRAWS_DINO))
-            samples = _batch(cl["B"], cl["x_list"], case["V"], 1 + k)
+            samples = _batch(cl["B"], cl["x_list"], case["V"], 1 + k, cl.get("nx"), cl.get("sizes"))
             expected = torch.utils.data.default_collate([s[0] for s in samples])
             obs = {"status": "ok", "trace": trace, "B": cl["B"], "ctx": cl["ctx"]}
             try:
@@ -469,14 +501,16 @@ def _ijepa_instance(mod, case, calls, tag):
 
 def run_ijepa(case):
     import importlib
-    mod = importlib.import_module("kappadata.collators.kd_ijepa_mask_collator")
+    # a freshly executed module per case: state kept on the class / module (instead of the object) by one case must not
+    # leak into the next one -- every case, and so every minimised replay, is judged on its own
+    mod = importlib.reload(importlib.import_module("kappadata.collators.kd_ijepa_mask_collator"))
     return {"calls": _ijepa_instance(mod, case, case["calls"], 1),
             "twin": _ijepa_instance(mod, case, case["twin"], 5)}
 
 
 class _LoaderDataset:
-    def __init__(self, n, x_list, V):
-        self.samples = _batch(n, x_list, V, 3)
+    def __init__(self, n, x_list, V, nx=None, sizes=None):
+        self.samples = _batch(n, x_list, V, 3, nx, sizes)
 
     def __len__(self):
         return len(self.samples)
@@ -525,7 +559,7 @@ def run_loader(case):
             mask_ratio=(rmin, rmax), mask_prob=case["p"][0] / case["p"][1], mask_size=(case["H"], case["W"]),
             num_views=case["V"], min_num_patches=case["minp"], min_aspect=case["min_aspect"],
             max_aspect=case["max_aspect"], dataset_mode="index x", return_ctx=True)
-        ds = _LoaderDataset(ld["n"], ld["x_list"], case["V"])
+        ds = _LoaderDataset(ld["n"], ld["x_list"], case["V"], ld.get("nx"), ld.get("sizes"))
         cap = MAX_DRAWS_DINO
     else:
         mod = importlib.import_module("kappadata.collators.kd_ijepa_mask_collator")
@@ -601,7 +635,8 @@ def oracle_dino(case, obs):
     if case.get("loader"):
         if [o["B"] for o in obs["calls"]] != obs["expected_batches"]:
             return f"DataLoader delivered batches of sizes {[o['B'] for o in obs['calls']]}, expected {obs['expected_batches']}"
-        calls = [{"B": o["B"], "ctx": True, "x_list": case["loader"]["x_list"]} for o in obs["calls"]]
+        calls = [{"B": o["B"], "ctx": True, "x_list": case["loader"]["x_list"], "nx": case["loader"].get("nx"),
+                      "sizes": case["loader"].get("sizes")} for o in obs["calls"]]
     if len(obs["calls"]) != len(calls) and obs["calls"][-1]["status"] == "ok":
         return "harness: number of observed calls"
     for k, (cl, o) in enumerate(zip(calls, obs["calls"])):
@@ -925,7 +960,8 @@ def features(case, obs):
     if case["kind"] == "dino":
         calls = dino_calls(case)
         if case.get("loader"):
-            calls = [{"B": o["B"], "ctx": True, "x_list": case["loader"]["x_list"]} for o in obs["calls"]]
+            calls = [{"B": o["B"], "ctx": True, "x_list": case["loader"]["x_list"], "nx": case["loader"].get("nx"),
+                      "sizes": case["loader"].get("sizes")} for o in obs["calls"]]
         yield "dino.calls=%d" % len(calls)
         yield "dino.grid=%s" % ("square" if case["H"] == case["W"] else "non-square")
         yield "dino.cells=%s" % ("<=25" if case["H"] * case["W"] <= 25 else "<=100" if case["H"] * case["W"] <= 100 else ">100")
@@ -943,6 +979,11 @@ def features(case, obs):
             yield "dino.status=" + o["status"].split(":")[0]
             yield "dino.ctx=%s" % cl["ctx"]
             yield "dino.x_list=%s" % cl["x_list"]
+            if cl["x_list"]:
+                nx = cl.get("nx") or case["V"]
+                yield "dino.len(x) %s num_views%s" % (
+                    "<" if nx < case["V"] else "==" if nx == case["V"] else ">",
+                    ", views of different sizes" if len(set(cl.get("sizes") or [2])) > 1 else "")
             if o.get("mask"):
                 counts = [sum(row.count("1") for row in m) for m in o["mask"]]
                 yield "dino.nonempty=%s" % min(sum(1 for c in counts if c), 4)
